@@ -55,6 +55,11 @@ func c13payload(rng *core.Rng, tag string) []byte {
 	}
 	b := rng.Bytes(n)
 	copy(b, tag)
+	if rng.Intn(8) == 0 {
+		// payloads are opaque to the server: text that a COPY text parser would read as its end-of-data
+		// marker, in a message of its own or at the end of one
+		return []byte(core.Pick(rng, []string{"\\.\n", "\\.", "1\ta\n\\.\n", tag + "\n\\.\n", "\\.\r\n", "\n\\.\n"}))
+	}
 	return b
 }
 
